@@ -74,7 +74,8 @@ pub mod lab {
     pub const ADDRESS_REUSED: u32 = 57;
     pub const WEAK_BEFORE_ASSUME_INIT: u32 = 58;
     pub const CLONE_VIA_UNINIT_TYPE: u32 = 59;
-    pub const NAMES: [&str; 60] = [
+    pub const DTOR_TRY_UNWRAP: u32 = 61;
+    pub const NAMES: [&str; 62] = [
         "group>=2_collected",
         "group>=3_collected",
         "zero_count_death_with_records",
@@ -135,6 +136,8 @@ pub mod lab {
         "object_allocated_at_the_address_of_a_released_object",
         "weak_taken_before_assume_init",
         "destructor_cloned_through_the_maybeuninit_typed_handle",
+        "",
+        "destructor_called_try_unwrap_on_a_stored_handle_to_an_outsider",
     ];
 }
 
@@ -181,6 +184,8 @@ pub struct Cfg {
     pub clone_panics: u8,
     /// FULL histories that also use the handle-consuming ops (C09)
     pub allow_consume: bool,
+    /// destructors may give a stored handle to an outsider up through try_unwrap
+    pub dtor_unwrap: bool,
     /// make_mut may be called in place on a handle stored inside a value
     pub slot_consume: bool,
     /// the payload's Clone (called by make_mut) runs the value's action script
